@@ -32,7 +32,8 @@ Invalid == {<< WM(0, S(0, 1)) >>, << WM(3, S(0, 1)) >>, << WM(7, S(0, 1)) >>, <<
             << WC(1, S(0, 1), "zero") >>, << WC(9, S(0, 126), "zero") >>, << WM(9, S(0, 126)) >>, << WM(8, S(0, 126)) >>,
             << NW(9), WR(S(0, 126), "w"), CL >>, << NW(10), WR(S(0, 100), "w"), WR(S(0, 26), "w"), CL >>,
             << NW(5) >>, << NW(0) >>, << WJB >>, << WC(9, S(0, 1), "past") >>, << WC(8, S(0, 2), "past") >>}
-Closes == {<< WC(8, S(0, 2), "zero") >>, << WC(8, S(0, 0), "d1") >>, << WM(8, S(0, 2)) >>, << NW(8), WR(S(0, 2), "w"), CL >>, << WP(3) >>}
+Closes == {<< NW(1), WC(8, S(0, 2), "zero"), CL >>,     \* also executed as ONE WriteJSON call whose value sends the close while being encoded
+           << WC(8, S(0, 2), "zero") >>, << WC(8, S(0, 0), "d1") >>, << WM(8, S(0, 2)) >>, << NW(8), WR(S(0, 2), "w"), CL >>, << WP(3) >>}
 
 Toggles == {<< >>, << EC(FALSE) >>, << EC(TRUE) >>, << SL(9) >>, << SL(0) >>, << SL(-2) >>, << EC(FALSE), SL(5) >>}
 
